@@ -418,7 +418,8 @@ pub fn render(rng: &mut Rng, g: &GenReq, peer: &str, port: u16) -> Rendered {
     out.extend(b"\r\n");
     // special headers are placed at random positions among the ordinary ones
     let mut all: Vec<(String, String, String)> = g.headers.iter().map(|h| (h.name.clone(), h.ows.clone(), h.value.clone())).collect();
-    let sep_choices = [",", ", ", " , ", ",  "];
+    // optional white space around the commas of a list is SP or HTAB
+    let sep_choices = [",", ", ", " , ", ",  ", ",\t", "\t,", " ,\t ", "\t,\t"];
     let mut xff_expect: Option<(String, Vec<String>)> = None;
     if let Some(x) = &g.xff {
         let sep = *rng.pick(&sep_choices);
